@@ -95,7 +95,13 @@ func (dec *Decoder) readStringAsBytes(utf16Length int) (data []byte, safe bool) 
 		}
 		if !safe {
 			safe = true
-			data = make([]byte, 0, utf16Length*3)
+			// the length comes from the wire: never reserve more than the input can still deliver
+			// when it is all in memory, and never a product that overflowed
+			capacity := utf16Length * 3
+			if dec.reader == nil || capacity/3 != utf16Length || capacity < len(buf) {
+				capacity = len(buf)
+			}
+			data = make([]byte, 0, capacity)
 		}
 		data = append(data, buf...)
 		if !dec.loadMore() {
